@@ -619,6 +619,8 @@ func C20(r *core.Run) {
 	}
 	// health checks keep passing while the grace period (longer than interval x threshold) runs: the in-flight request is still answered
 	scs = append(scs, c20ShutCase{Name: fmt.Sprintf("s%d", len(scs)), Signal: "INT", GraceS: 7, Phase: "at-backend", Finish: "inside", FinishS: 4.5, Health: true})
+	// a backend that stays busy far beyond the period (longer than the progress bound): the process still exits when the period ends
+	scs = append(scs, c20ShutCase{Name: fmt.Sprintf("s%d", len(scs)), Signal: "TERM", GraceS: 2, Phase: "at-backend", Finish: "outside", FinishS: 16})
 	// a period that is not a whole number of seconds, with the backend finishing in its last second; and a second signal during the period
 	scs = append(scs, c20ShutCase{Name: fmt.Sprintf("s%d", len(scs)), Signal: "TERM", GraceS: 3, GraceMs: 3900, Phase: "at-backend", Finish: "inside", FinishS: 3.3})
 	scs = append(scs, c20ShutCase{Name: fmt.Sprintf("s%d", len(scs)), Signal: "INT", GraceS: 3, Phase: "at-backend", Finish: "inside", FinishS: 1.5, Second: "TERM"})
